@@ -193,6 +193,7 @@ def main() -> int:
 
     t0 = time.time()
     print(f"SEED {seed} property={prop} tier={tier}")
+    runner.warmup()
     known = load_known()
     merged = None
     total_runs = 0
